@@ -567,7 +567,7 @@ def check_fill_queue(ctx, rep, rules=('B-acc', 'X-opsites', 'W-iter')):
         rep.ob(R_OPS, 'argument-independent-of-operation:arg%d' % i, same,
                'argument %d of a process_polygon call depends on which way an operation test went (%s): the operation may influence only the '
                'exterior flag and the contour id of clipping rings' % (i, sorted(set().union(*vals))[:3]), loc=b.loc(line_[0] if isinstance(line_, tuple) else line_), reason='dominance')
-    rep.floor(R_OPS, 'process_polygon arguments compared across operation assumptions', n_imp, 16)
+    rep.floor(R_OPS, 'process_polygon arguments compared across operation assumptions', n_imp, 4)      # one call site, four compared arguments
     for p in ps:
         for line_, a in pp_calls(p):
             e = {'line': line_}
